@@ -489,8 +489,8 @@ pub fn c15(tier: Tier) -> PropSpec {
         ],
         exhaustive: false,
         parts: vec![
-            Part::with_shrink("runs", tier.pick(700, 9000), 300, cli_case, c15_check),
-            Part::with_shrink("malformed", tier.pick(100, 1500), 300, malformed_case, cli_reject_check),
+            Part::with_shrink("runs", tier.pick(2500, 25000), 300, cli_case, c15_check),
+            Part::with_shrink("malformed", tier.pick(300, 3000), 300, malformed_case, cli_reject_check),
         ],
     }
 }
